@@ -12,12 +12,14 @@ import tempfile
 import apel
 import clirun
 import common
+import mainrun
 import pelbuild
 from common import Check, lean_batch
 
 TRUSTED = ['Lean 4.33.0 kernel (+ leanchecker in the thorough tier)',
            'axioms: propext, Classical.choice, Quot.sound only (audited per theorem)',
            'harness/c12.py (fault-injecting proxies for open / stdout / os.remove, comparison), Drv.lean protocol parsing',
+           'harness/mainrun.py (the -f branch of the real main() with parseAndPrintPELFile replaced by a recorder returning a chosen Boolean)',
            'compiled driver peldrv agrees with the kernel reading of the same definitions']
 ASSUME = ['"completely written" means written and closed (--json) / printed and flushed (--file): the code does no fsync; durability '
           'across a kernel crash is outside any executable model of this code',
@@ -26,7 +28,9 @@ ASSUME = ['"completely written" means written and closed (--json) / printed and 
 RULE = ('cases = (procedure --json -c | --file --clean, decode result doc / filtered / failed / bad header, fault plan: no fault, fault at open, '
         'at the first / a middle / the last write, at close, at print, at flush, at remove; errno ENOSPC / EIO / EPIPE); the recorded event '
         'trace is compared with the model and the final state is checked directly; non-trivial = a fault or a non-doc decode result; '
-        'distinct by (procedure, input, fault plan)')
+        'distinct by (procedure, input, fault plan).  main() cases = command lines with -f and other mode options, with and without '
+        '--clean, parseAndPrintPELFile made to return True / False: main() must call os.remove(the -f file) iff --clean and True '
+        '(compared with Pel.Action.afterPrint)')
 
 
 class Injected(Exception):
@@ -255,6 +259,8 @@ def run(tier, seed):
     finally:
         env.uninstall()
         shutil.rmtree(tmp, ignore_errors=True)
+    # the -f branch of main(): os.remove(args.file) iff --clean and parseAndPrintPELFile returned True (PelModel/Main.lean: Action.afterPrint)
+    mainrun.check_main(ck, tier, 'file')
     return ck.finish(RULE, TRUSTED, ASSUME)
 
 
